@@ -123,6 +123,16 @@ CLAIMED = {
              "replayed under NUMBA_BOUNDSCHECK=1 (IndexError / dependence on the previous buffer content).",
         note="Checks the source's index expressions, not the machine code; in-contract inputs only. Trusted: pysym, z3.",
         technique="symbolic execution with bounds / definite-assignment obligations + z3", ref="5 C14"),
+    "C11": dict(
+        text="Symbolic verification over the FULL calendar range (years 1..9999, every month/day/time of day, every raw dekad integer, "
+             "every offset keeping the year in range - all z3 integers, no enumeration): dekad.py (constructor from date / label / raw, "
+             "properties, start/end dates, ndays, comparisons, hash, + and -) is executed symbolically; z3 decides the raw formula, "
+             "field ranges, containment start <= instant <= end, abutment, end = last microsecond of day 10/20/last, ndays = 10/10/"
+             "month length - 20, raw/date/label round trips with the label as fixed-width fields, order = chronological order, "
+             "integer translations, and element-wise agreement of the .dekad accessor.",
+        note="datetime/timedelta replaced by a proleptic-Gregorian microsecond model validated against CPython (leap / century / 400-year "
+             "rules); strftime %Y modelled as unpadded (glibc); end_date of 9999-12-d3 outside as in the property. Trusted: pysym, z3, the model.",
+        technique="symbolic execution of the class + z3 LIA (div/mod) over the full range", ref="5 C11"),
 }
 
 NOT_APPLICABLE = {
